@@ -58,6 +58,8 @@ def make_server(script, retries, delay, clock, trace):
             else:
                 ok = True
             trace.append(('T', bytes(data), ok))
+            if script.get('drain') and isinstance(data, bytearray):
+                data.clear()          # a transport that consumes the buffer it is given
             return ok
 
         def _flush_input(self):
@@ -207,14 +209,14 @@ def chunk(rng, data, mode, dts):
     return [(p if (p or rng.random() < 0.5) else None, rng.choice(dts)) for p in parts]
 
 
-def inert_traffic(rng, filt):
+def inert_traffic(rng, filt, extra_cids=()):
     """Traffic that is not an answer-class frame: NMEA, other UBX messages, noise without sync pair."""
     k = rng.choice(['nmea', 'ubx', 'noise', 'none', 'none'])
     if k == 'nmea':
         return G.nmea(b'GPRMC,12,A')
     if k == 'ubx':
         while True:
-            c, i = rng.choice([(1, 7), (1, 3), (10, 9), (2, 0x15), (6, 0x99), (0x13, 0x60)])
+            c, i = rng.choice([(1, 7), (1, 3), (10, 9), (2, 0x15), (6, 0x99), (0x13, 0x60)] + list(extra_cids) * 2)
             if (c, i) not in filt:
                 return G.frame(c, i, bytes(rng.getrandbits(8) for _ in range(rng.choice([0, 4, 28]))))
     if k == 'noise':
